@@ -847,7 +847,32 @@ def write_world_files(world, root):
             f.write(text)
 
 
+_preloaded = []
+
+
+def preload_behave():
+    """Import every lazily loaded behave formatter module BEFORE the first run_behave().
+
+    behave.__main__.run_behave() calls reset_runtime(), which rebinds
+    behave.step_registry.registry to a new object that nobody else uses; formatter modules
+    doing `from behave.step_registry import registry` (steps.code, steps.bad) bind whatever
+    object is current when they are first imported.  In a real process that happens while the
+    Configuration is built, i.e. before the first reset; importing them up-front gives every
+    simulated run in this interpreter the same binding as a fresh process."""
+    if _preloaded:
+        return
+    from behave.formatter import _registry as FR
+    try:
+        list(FR.format_items(resolved=True))
+    except Exception:
+        pass
+    import behave.formatter.steps_code      # noqa: F401
+    import behave.formatter.bad_steps       # noqa: F401
+    _preloaded.append(1)
+
+
 def reset_behave_globals(world):
+    preload_behave()
     import behave.runner
     import behave.matchers as M
     import behave.model as model
@@ -865,6 +890,9 @@ def reset_behave_globals(world):
         TagExpressionProtocol.use(TagExpressionProtocol.DEFAULT)
     except Exception:
         pass
+    # source-line cache is keyed by the (relative) file name of generated modules
+    import linecache
+    linecache.clearcache()
     # logging
     root = logging.getLogger()
     for h in list(root.handlers):
